@@ -161,7 +161,8 @@ func (d *API) OperationHandlerFor(method, path string) (runtime.OperationHandler
 func (d *API) ConsumersFor(mediaTypes []string) map[string]runtime.Consumer {
 	result := make(map[string]runtime.Consumer)
 	for _, mt := range mediaTypes {
-		if consumer, ok := d.consumers[mt]; ok {
+		// the registry is keyed in lower case (RegisterConsumer); the result keeps the spelling it was asked with
+		if consumer, ok := d.consumers[strings.ToLower(mt)]; ok {
 			result[mt] = consumer
 		}
 	}
@@ -172,7 +173,8 @@ func (d *API) ConsumersFor(mediaTypes []string) map[string]runtime.Consumer {
 func (d *API) ProducersFor(mediaTypes []string) map[string]runtime.Producer {
 	result := make(map[string]runtime.Producer)
 	for _, mt := range mediaTypes {
-		if producer, ok := d.producers[mt]; ok {
+		// the registry is keyed in lower case (RegisterProducer); the result keeps the spelling it was asked with
+		if producer, ok := d.producers[strings.ToLower(mt)]; ok {
 			result[mt] = producer
 		}
 	}
